@@ -4,10 +4,11 @@ CONSTANTS
   NK = 60
   Vals <- TraceVals
   MaxDepth = 3
-  NR = 1
-  NT = 1
-  Writers = {1}
-  RdThreads = {1}
+  NR = 2
+  NT = 2
+  Writers = {1, 2}
+  ItThreads = {1, 2}
+  RdThreads = {1, 2}
   MapInit = 10
   UsedInit = 0
   Chunk = 10
